@@ -22,6 +22,7 @@ harness/c13.py with the thresholds of the property.
 -/
 import FdtdxModel.C13
 import Mathlib.Tactic.Ring
+import Mathlib.Algebra.Field.Basic
 import Mathlib.Tactic.LinearCombination
 import Mathlib.Tactic.NormNum
 
@@ -252,6 +253,134 @@ theorem C13_inject_is_line (normal : Nat) (hn : normal < 3) (s c : K) (incE incH
     simp [injectE, injectH, lineJE, lineJH, orientedAxes]
 
 end
+
+/-! ### 3-D reduction: transversally uniform fields of the shared Yee model evolve by the line model -/
+section reduction
+variable {K : Type} [Field K]
+
+/-- a vector field that is constant along x and y, with no z component -/
+def lift (fx fy : Nat → K) : V3 K := ⟨fun _ _ k => fx k, fun _ _ k => fy k, fun _ _ _ => 0⟩
+
+/-- the scene of the property, propagation along z: periodic in x and y (wrap halo, ghost multipliers 1), constant
+(zero) halo along z (none / PML faces), no PEC/PMC walls -/
+structure Periodic2D (cf : Cfg K) : Prop where
+  xw : cf.bx.wrap = true
+  xp : cf.bx.pp = 1
+  xm : cf.bx.pm = 1
+  yw : cf.by_.wrap = true
+  yp : cf.by_.pp = 1
+  ym : cf.by_.pm = 1
+  zw : cf.bz.wrap = false
+  x1 : cf.bx.pecLo = false
+  x2 : cf.bx.pecHi = false
+  x3 : cf.bx.pmcLo = false
+  x4 : cf.bx.pmcHi = false
+  y1 : cf.by_.pecLo = false
+  y2 : cf.by_.pecHi = false
+  y3 : cf.by_.pmcLo = false
+  y4 : cf.by_.pmcHi = false
+  z1 : cf.bz.pecLo = false
+  z2 : cf.bz.pecHi = false
+  z3 : cf.bz.pmcLo = false
+  z4 : cf.bz.pmcHi = false
+
+private theorem next1_const (n : Nat) (b : AxisBC K) (hw : b.wrap = true) (hp : b.pp = 1) (v : K) (i : Nat) :
+    next1 n b (fun _ => v) i = v := by
+  unfold next1; split_ifs <;> simp [hp]
+
+private theorem prev1_const (n : Nat) (b : AxisBC K) (hw : b.wrap = true) (hp : b.pm = 1) (v : K) (i : Nat) :
+    prev1 n b (fun _ => v) i = v := by
+  unfold prev1; split_ifs <;> simp [hp]
+
+private theorem next1_nowrap (n : Nat) (b : AxisBC K) (hw : b.wrap = false) (g : Nat → K) (i : Nat) :
+    next1 n b g i = next1 n (zeroBC : AxisBC K) g i := by
+  simp [next1, zeroBC, hw]
+
+private theorem prev1_nowrap (n : Nat) (b : AxisBC K) (hw : b.wrap = false) (g : Nat → K) (i : Nat) :
+    prev1 n b g i = prev1 n (zeroBC : AxisBC K) g i := by
+  simp [prev1, zeroBC, hw]
+
+private theorem pecMask_off (cf : Cfg K) (h : Periodic2D cf) (comp i j k : Nat) : pecMask cf comp i j k = false := by
+  simp [pecMask, onWall, h.x1, h.x2, h.y1, h.y2, h.z1, h.z2]
+
+private theorem pmcMask_off (cf : Cfg K) (h : Periodic2D cf) (comp i j k : Nat) : pmcMask cf comp i j k = false := by
+  simp [pmcMask, onWall, h.x3, h.x4, h.y3, h.y4, h.z3, h.z4]
+
+/-- the E half step: uniform fields stay uniform, the pair (E_x, H_y) evolves by the line model with q = +1, the pair
+(E_y, H_x) with q = −1, E_z stays 0 -/
+theorem stepE_lift (cf : Cfg K) (h : Periodic2D cf) (iex iey : Nat → K) (iez : F3 K) (invMu : V3 K)
+    (jex jey ex ey hx hy : Nat → K) :
+    stepE cf ⟨⟨fun _ _ k => iex k, fun _ _ k => iey k, iez⟩, invMu, none, none⟩ (lift jex jey) (lift ex ey) (lift hx hy)
+      = lift (lineStepE cf.nz 1 cf.c cf.sbz iex jex ex hy) (lineStepE cf.nz (-1) cf.c cf.sbz iey jey ey hx) := by
+  unfold stepE projE maskV
+  simp only [pecMask_off cf h, Bool.false_eq_true, if_false, addV, lift, curlH, updE1, optAt, Option.map_none,
+    prev1_const _ _ h.xw h.xm, prev1_const _ _ h.yw h.ym, prev1_nowrap _ _ h.zw, lineStepE]
+  congr 1 <;> funext i j k <;> ring
+
+theorem stepH_lift (cf : Cfg K) (h : Periodic2D cf) (invEps : V3 K) (imx imy : Nat → K) (imz : F3 K)
+    (jhx jhy ex ey hx hy : Nat → K) :
+    stepH cf ⟨invEps, ⟨fun _ _ k => imx k, fun _ _ k => imy k, imz⟩, none, none⟩ (lift jhx jhy) (lift ex ey) (lift hx hy)
+      = lift (lineStepH cf.nz (-1) cf.c cf.sfz imx jhx ey hx) (lineStepH cf.nz 1 cf.c cf.sfz imy jhy ex hy) := by
+  unfold stepH projH maskV
+  simp only [pmcMask_off cf h, Bool.false_eq_true, if_false, addV, lift, curlE, updH1, optAt, Option.map_none,
+    next1_const _ _ h.xw h.xp, next1_const _ _ h.yw h.yp, next1_nowrap _ _ h.zw, lineStepH]
+  congr 1 <;> funext i j k <;> ring
+
+/-- **C13_yee_reduces_to_line**: in the transversally periodic scene, fields that are constant along the two transverse
+axes (and have no normal component) stay so under `forward` of the shared 3-D Yee model, and their two polarisation
+pairs evolve by the 1-D line model of the exactness theorem — with any media profile along the axis, any metric, any
+transversally uniform source terms (in particular the TFSF terms of a uniform plane source). -/
+theorem C13_yee_reduces_to_line (cf : Cfg K) (h : Periodic2D cf) (iex iey imx imy : Nat → K) (iez imz : F3 K)
+    (jex jey jhx jhy ex ey hx hy : Nat → K) :
+    let ex' := lineStepE cf.nz 1 cf.c cf.sbz iex jex ex hy
+    let ey' := lineStepE cf.nz (-1) cf.c cf.sbz iey jey ey hx
+    forward cf ⟨⟨fun _ _ k => iex k, fun _ _ k => iey k, iez⟩, ⟨fun _ _ k => imx k, fun _ _ k => imy k, imz⟩, none, none⟩
+        (lift jex jey) (lift jhx jhy) (lift ex ey) (lift hx hy)
+      = (lift ex' ey',
+         lift (lineStepH cf.nz (-1) cf.c cf.sfz imx jhx ey' hx) (lineStepH cf.nz 1 cf.c cf.sfz imy jhy ex' hy)) := by
+  intro ex' ey'
+  unfold forward
+  simp only []
+  rw [stepE_lift cf h, stepH_lift cf h]
+
+/-- **C13_tfsf_exact_3d**: the exactness statement on the shared 3-D Yee model itself (propagation along z, direction
+"+"; the other axes follow from the C08 equivariance of the model): transversally periodic scene, both polarisation
+pairs driven by the TFSF terms of the plane at cell k0. If the two incident pairs satisfy the discrete 1-D equations, one
+`forward` step maps "incident wave in front of the plane, zero behind" to the same state one step later. -/
+theorem C13_tfsf_exact_3d (cf : Cfg K) (h : Periodic2D cf) (k0 : Nat) (iex iey imx imy : Nat → K) (iez imz : F3 K)
+    (e1 h1 e2 h2 : Nat → Nat → K)
+    (hi1 : Incident cf.nz 1 cf.c cf.sfz cf.sbz iex imy e1 h1 (fun k => k0 < k) (fun k => k0 ≤ k))
+    (hi2 : Incident cf.nz (-1) cf.c cf.sfz cf.sbz iey imx e2 h2 (fun k => k0 < k) (fun k => k0 ≤ k)) (t : Nat) :
+    forward cf ⟨⟨fun _ _ k => iex k, fun _ _ k => iey k, iez⟩, ⟨fun _ _ k => imx k, fun _ _ k => imy k, imz⟩, none, none⟩
+        (lift (lineJE k0 1 1 cf.c cf.sbz iex (h1 t k0)) (lineJE k0 (-1) 1 cf.c cf.sbz iey (h2 t k0)))
+        (lift (lineJH k0 (-1) 1 cf.c cf.sfz imx (e2 (t + 1) k0)) (lineJH k0 1 1 cf.c cf.sfz imy (e1 (t + 1) k0)))
+        (lift (plusState k0 (e1 t) (h1 t)).1 (plusState k0 (e2 t) (h2 t)).1)
+        (lift (plusState k0 (e2 t) (h2 t)).2 (plusState k0 (e1 t) (h1 t)).2)
+      = (lift (plusState k0 (e1 (t + 1)) (h1 (t + 1))).1 (plusState k0 (e2 (t + 1)) (h2 (t + 1))).1,
+         lift (plusState k0 (e2 (t + 1)) (h2 (t + 1))).2 (plusState k0 (e1 (t + 1)) (h1 (t + 1))).2) := by
+  have A := C13_tfsf_exact_1d cf.nz k0 1 cf.c cf.sfz cf.sbz iex imy e1 h1 hi1 t
+  have B := C13_tfsf_exact_1d cf.nz k0 (-1) cf.c cf.sfz cf.sbz iey imx e2 h2 hi2 t
+  unfold lineStep at A B
+  simp only [Prod.ext_iff] at A B
+  have R := C13_yee_reduces_to_line cf h iex iey imx imy iez imz
+    (lineJE k0 1 1 cf.c cf.sbz iex (h1 t k0)) (lineJE k0 (-1) 1 cf.c cf.sbz iey (h2 t k0))
+    (lineJH k0 (-1) 1 cf.c cf.sfz imx (e2 (t + 1) k0)) (lineJH k0 1 1 cf.c cf.sfz imy (e1 (t + 1) k0))
+    (plusState k0 (e1 t) (h1 t)).1 (plusState k0 (e2 t) (h2 t)).1
+    (plusState k0 (e2 t) (h2 t)).2 (plusState k0 (e1 t) (h1 t)).2
+  simp only [] at R
+  rw [R, A.1, B.1]
+  rw [A.1] at A
+  rw [B.1] at B
+  rw [A.2, B.2]
+
+/-- non-vacuity of `Periodic2D`: a 3×4×9 box, periodic in x and y, zero halo along z, non-uniform metric along z -/
+example : Periodic2D (K := ℚ)
+    ⟨3, 4, 9, ⟨true, 1, 1, false, false, false, false⟩, ⟨true, 1, 1, false, false, false, false⟩,
+      ⟨false, 1, 1, false, false, false, false⟩, fun _ => 1, fun _ => 1, fun k => 1 / (k + 1), fun _ => 1, fun _ => 1,
+      fun k => 2 / (2 * k + 1), 1 / 2, 377⟩ := by
+  constructor <;> rfl
+
+end reduction
 
 /-! ### non-vacuity -/
 
